@@ -96,6 +96,10 @@ def isInStateElem (states : List Nat) (desired : SdState) : Bool :=
   | .bootstrap => false
   | d => allInState states d.toNat
 
+def groupInSingleStateElem : List Nat → Option SdState
+  | [] => Option.none
+  | x :: rest => if rest.all (· == x) then some (SdState.ofNat x) else Option.none
+
 /-! ### Datagrams on the wire -/
 
 inductive Dg where
